@@ -301,12 +301,9 @@ func c15Check(e *c15Env, p *vreport.Part, c c15Case) {
 			cq.Only = &pr
 			return cq
 		}
-		for _, d := range c15ref.Differ(oF, oP) {
-			p.Violation("builders disagree | "+q.kind+" | "+d.What,
-				fmt.Sprintf("lb=%s probe=%+v: filtering %s ; pre-index %s (%s)", c.LB, q.p, oF, oP, d.Detail), only())
-		}
 		var exp c15ref.Expect
 		class := q.kind
+		explained := false // a disagreement is reported on its own only when no builder deviates from the reference
 		if q.cmp {
 			exp = c15ref.Reference(&c.Cfg, q.p.Crit)
 			class = exp.Class
@@ -315,28 +312,31 @@ func c15Check(e *c15Env, p *vreport.Part, c c15Case) {
 				e.seenD[dk] = true
 				p.Distinct(c15ref.ClassCode(&c.Cfg, exp))
 			}
+			for bi, o := range [2]c15ref.Obs{oF, oP} {
+				b := "filtering builder"
+				if bi == 1 {
+					b = "pre-index builder"
+				}
+				// the most severe deviation only: one bug, few keys
+				if ps := c15ref.Judge(exp, o, true); len(ps) > 0 {
+					explained = true
+					p.Violation(fmt.Sprintf("%s | %s | %s", b, exp.Class, ps[0].What),
+						fmt.Sprintf("lb=%s criteria=%v (fallback reason: %s; key sets: %s): %s; observed %s; hosts=%v selectors=%v policy=%d default=%v",
+							c.LB, q.p.Crit, exp.Reason, exp.Rel, ps[0].Detail, o, c.Cfg.Hosts, c.Cfg.Selectors, c.Cfg.Policy, c.Cfg.Default), only())
+				}
+			}
+		} else if q.p.Kind != "criteria" && (oF.Panic != "" || oP.Panic != "") {
+			explained = true
+			p.Violation("panic | "+q.kind, oF.Panic+" / "+oP.Panic, only())
+		}
+		if ds := c15ref.Differ(oF, oP); len(ds) > 0 && !explained {
+			p.Violation("builders disagree | "+q.kind+" | "+ds[0].What,
+				fmt.Sprintf("lb=%s probe=%+v: filtering %s ; pre-index %s (%s)", c.LB, q.p, oF, oP, ds[0].Detail), only())
 		}
 		ok := c15OKey{class, oF.HostNum, oF.Exists, oF.Mask, oF.Nils > 0}
 		if !e.seenO[ok] {
 			e.seenO[ok] = true
 			p.Outcome(fmt.Sprint(ok))
-		}
-		if !q.cmp {
-			if q.p.Kind != "criteria" && (oF.Panic != "" || oP.Panic != "") {
-				p.Violation("panic | "+q.kind, oF.Panic+" / "+oP.Panic, only())
-			}
-			continue
-		}
-		for bi, o := range [2]c15ref.Obs{oF, oP} {
-			b := "filtering builder"
-			if bi == 1 {
-				b = "pre-index builder"
-			}
-			for _, pb := range c15ref.Judge(exp, o, true) {
-				p.Violation(fmt.Sprintf("%s | %s (%s) | %s", b, exp.Class, exp.Reason, pb.What),
-					fmt.Sprintf("lb=%s criteria=%v (%s): %s; observed %s; hosts=%v selectors=%v policy=%d default=%v",
-						c.LB, q.p.Crit, exp.Rel, pb.Detail, o, c.Cfg.Hosts, c.Cfg.Selectors, c.Cfg.Policy, c.Cfg.Default), only())
-			}
 		}
 	}
 }
@@ -352,6 +352,7 @@ type c15Bound struct {
 	cross           [][]c15ref.Pair // default subsets additionally configured under policies none / any-endpoint
 	perms           bool            // also every non-sorted order of each criteria (compared between builders only)
 	randMax         int             // inner balancer random (scripted draws) for host lists of length <= randMax; round-robin for all
+	minHosts        int             // host lists shorter than this are left to the other parts
 }
 
 func (b c15Bound) fallbacks() []c15ref.FallbackAlt {
@@ -363,8 +364,8 @@ func (b c15Bound) fallbacks() []c15ref.FallbackAlt {
 }
 
 func (b c15Bound) String() string {
-	return fmt.Sprintf("host metadata: keys %v x values %v incl. absent (%d shapes); host lists: all ordered lists of <=%d hosts plus all multisets of size %d..%d; selectors: all lists of 1..%d different entries of %v; fallback: %d alternatives {none, any-endpoint, default-subset with %v; none/any-endpoint with configured default %v}; criteria: every assignment of %v to {absent,%s}%s, plus context-without-criteria and nil-context; inner balancer round-robin for every configuration and random (source scripted, all draws) for host lists of length <=%d; all hosts healthy",
-		b.keys, b.values, len(c15ref.Shapes(b.keys, b.values)), b.ordMax, b.ordMax+1, b.msMax, b.maxSel, b.selAlphabet, len(b.fallbacks()), b.defaults, b.cross,
+	return fmt.Sprintf("host metadata: keys %v x values %v incl. absent (%d shapes); host lists of length >=%d: all ordered lists of <=%d hosts plus all multisets of size %d..%d; selectors: all lists of 1..%d different entries of %v; fallback: %d alternatives {none, any-endpoint, default-subset with %v; none/any-endpoint with configured default %v}; criteria: every assignment of %v to {absent,%s}%s, plus context-without-criteria and nil-context; inner balancer round-robin for every configuration and random (source scripted, all draws) for host lists of length <=%d; all hosts healthy",
+		b.keys, b.values, len(c15ref.Shapes(b.keys, b.values)), b.minHosts, b.ordMax, b.ordMax+1, b.msMax, b.maxSel, b.selAlphabet, len(b.fallbacks()), b.defaults, b.cross,
 		b.critKeys, strings.Join(b.critV, ","), map[bool]string{true: " in every order", false: " in sorted order"}[b.perms], b.randMax)
 }
 
@@ -409,6 +410,24 @@ func c15Bounds3() c15Bound {
 	return b
 }
 
+// four-host scope: every ORDERED list of exactly 4 hosts (the pre-index builder
+// caches host slices by index set; index sets with equal min, max and size but
+// different members need 4 hosts whose first and last are in both sets).
+func c15Bounds4() c15Bound {
+	ab := []string{"a", "b"}
+	b := c15Bound{keys: ab, values: []string{"1", "2"}, critKeys: ab, critV: []string{"1", "2"},
+		ordMax: 4, msMax: 4, minHosts: 4, selAlphabet: c15ref.KeySets(ab), maxSel: 2,
+		defaults: [][]c15ref.Pair{c15P("a", "1")}, randMax: 0}
+	if vreport.Thorough() {
+		b.critKeys, b.critV = []string{"a", "b", "z"}, []string{"1", "2", "9"}
+		b.selAlphabet = [][]string{{"a"}, {"b"}, {"a", "b"}, {"b", "a"}}
+		b.defaults = [][]c15ref.Pair{c15P(), c15P("a", "1"), c15P("a", "1", "b", "2"), c15P("b", "9")}
+		b.cross = [][]c15ref.Pair{c15P("a", "1")}
+		b.randMax = 4
+	}
+	return b
+}
+
 func c15Gen(b c15Bound, yield func(c15Case) bool) {
 	shapes := c15ref.Shapes(b.keys, b.values)
 	sels := c15ref.SelectorLists(b.selAlphabet, b.maxSel)
@@ -416,6 +435,9 @@ func c15Gen(b c15Bound, yield func(c15Case) bool) {
 	si, sn := vreport.Shard()
 	idx := 0
 	each := func(ms []int) bool {
+		if len(ms) < b.minHosts {
+			return true
+		}
 		hosts := [][]c15ref.Pair{}
 		for _, s := range ms {
 			hosts = append(hosts, shapes[s])
@@ -472,3 +494,5 @@ func c15RunPart(name string, b c15Bound) {
 func TestVerifC15Subset2Keys(t *testing.T) { c15RunPart("subset-2keys", c15Bounds2()) }
 
 func TestVerifC15Subset3Keys(t *testing.T) { c15RunPart("subset-3keys", c15Bounds3()) }
+
+func TestVerifC15Subset4Hosts(t *testing.T) { c15RunPart("subset-4hosts", c15Bounds4()) }
